@@ -8,10 +8,28 @@ trace recorder, event tracing) do not appear: nothing in a transition reads them
 namespace HappyModel.C04
 open HappyModel.C01
 
+/-- what a breakpoint can read of the user's model: attribute `attr` of entity `ent`
+    (`getattr(entity, attribute, None)`; `none` = the entity or the attribute is missing, or it is `None`) -/
+class Probe (σ : Type) where
+  read : σ → Nat → Nat → Option Int
+
+/-- comparison operators of `MetricBreakpoint` (`_OPERATORS`) -/
+inductive Cmp
+  | gt | ge | lt | le | eq | ne
+deriving Repr, DecidableEq
+
+def Cmp.holds (c : Cmp) (a b : Int) : Bool :=
+  match c with
+  | .gt => decide (a > b) | .ge => decide (a ≥ b) | .lt => decide (a < b)
+  | .le => decide (a ≤ b) | .eq => decide (a = b) | .ne => decide (a ≠ b)
+
 inductive Bp
   | time (t : Nat) (oneShot : Bool)        -- TimeBreakpoint: now ≥ t
   | count (n : Nat) (oneShot : Bool)       -- EventCountBreakpoint: processed ≥ n
   | kind (k : Nat) (oneShot : Bool)        -- EventTypeBreakpoint: last event's type
+  | metric (ent attr : Nat) (op : Cmp) (thr2 : Int) (oneShot : Bool)
+      -- MetricBreakpoint: entity.attr `op` thr2/2; a value of 0 / False is a value, only `None` is "missing"
+  | countEq (n : Nat) (oneShot : Bool)     -- ConditionBreakpoint(lambda ctx: ctx.events_processed == n)
 deriving Repr, DecidableEq
 
 structure Ctl where
@@ -25,13 +43,18 @@ inductive Outcome
   | paused | complete | fuel
 deriving Repr, DecidableEq
 
-def Bp.hit {σ} (s : St σ) (last : Ev) : Bp → Bool
+def Bp.hit {σ} [Probe σ] (s : St σ) (last : Ev) : Bp → Bool
   | .time t _ => decide (t ≤ s.now)
   | .count n _ => decide (n ≤ s.processed)
   | .kind k _ => last.kind == k
+  | .metric ent attr op thr2 _ =>
+    match Probe.read s.ent ent attr with
+    | none => false
+    | some v => op.holds (2 * v) thr2
+  | .countEq n _ => s.processed == n
 
 def Bp.oneShot : Bp → Bool
-  | .time _ o | .count _ o | .kind _ o => o
+  | .time _ o | .count _ o | .kind _ o | .metric _ _ _ _ o | .countEq _ o => o
 
 def shouldPause (c : Ctl) : Bool :=
   c.pauseReq || (match c.steps with | some n => n == 0 | none => false)
@@ -41,7 +64,7 @@ def loopCond {σ} (endT : Option Nat) (s : St σ) : Bool :=
   !s.heap.isEmpty && (match endT with | some t => decide (s.now ≤ t) | none => true)
 
 /-- one call of `run()` / `resume()` / `step(n)`: iterate until pause, completion or fuel -/
-def ctlLoop {σ} (m : Machine σ) (endT : Option Nat) : Nat → St σ → Ctl → St σ × Ctl × Outcome
+def ctlLoop {σ} [Probe σ] (m : Machine σ) (endT : Option Nat) : Nat → St σ → Ctl → St σ × Ctl × Outcome
   | 0, s, c => (s, c, .fuel)
   | fuel+1, s, c =>
     if !loopCond endT s then (s, c, .complete)
@@ -120,7 +143,7 @@ def resetSt {σ} (base : Nat) (ent : σ) (pre : List Spec) : St σ :=
   { heap := evs, now := 0, nextId := base + pre.length, ent := ent, primary := countPrimary evs }
 
 /-- a control script applied from outside between calls of `run()` -/
-def Sess.apply {σ} (m : Machine σ) (x : Ext σ) (endT : Option Nat) (fuel : Nat) (z : Sess σ) : Cmd → Sess σ
+def Sess.apply {σ} [Probe σ] (m : Machine σ) (x : Ext σ) (endT : Option Nat) (fuel : Nat) (z : Sess σ) : Cmd → Sess σ
   | .pause => { z with c := { z.c with pauseReq := true } }
   | .bp b => { z with c := { z.c with bps := z.c.bps ++ [b] } }
   | .clear => { z with c := { z.c with bps := [] } }
